@@ -7,7 +7,7 @@ export PYTHONPATH=/repo:/verif/harness PYTHONHASHSEED=0 PYTHONDONTWRITEBYTECODE=
 if [ -f harness/gen_consts.py ]; then /venv/bin/python harness/gen_consts.py; fi
 cd coq
 find theories \( -name '*.vo' -o -name '*.vok' -o -name '*.vos' -o -name '*.glob' -o -name '.*.aux' \) -delete
-rm -f Makefile Makefile.conf .vfiles .Makefile.d
+rm -f Makefile Makefile.* .vfiles .vfiles.* .Makefile.d .Makefile.*.d
 vs=$(find theories -name '*.v' | sort)
 coq_makefile -f _CoqProject -o Makefile $vs
 echo "$vs" | sed 's/ /\n/g' > .vfiles.tmp; /venv/bin/python - <<'PY'
